@@ -649,6 +649,11 @@ def s_crc_update(ip, frame, bb, st, callee, args, dty):
     sl = as_slice(ip, st, args[1])
     for h in ip.on_crc:
         h(ip, frame, bb, st, "update", args[0], sl)
+    r = args[0]
+    if isinstance(r, VRef):
+        cur = ip.read_raw(st, r.root, r.steps)
+        if isinstance(cur, VOpq) and cur.tag in ("crc-digest-fresh",):
+            ip.write_raw(st, r.root, r.steps, VOpq(cur.ty, "crc-digest-fed"))
     return [(st, UNIT)]
 
 
@@ -727,7 +732,9 @@ def _drop_deref_cache(st, ref):
 
 def c_buffer_write(ip, frame, bb, st, callee, args, dty):
     _drop_deref_cache(st, args[0])
-    return c_fallible_write(ip, frame, bb, st, callee, args, dty)
+    outs = c_fallible_write(ip, frame, bb, st, callee, args, dty)
+    outs[1][0].ghost["buf-write-failed"] = outs[1][0].ghost.get("buf-write-failed", 0) + 1
+    return outs
 
 
 def c_buffer_unit(ip, frame, bb, st, callee, args, dty):
